@@ -1,5 +1,6 @@
-"""The string helpers that gen/c2lean.py translates (stripbrackets, addbrackets, toLowerCase, hashstring, ltrim, rtrim,
-trim, check_delim, replace_str): the real C function (harness/leaf.c, ASan+UBSan, arguments in tight heap blocks), the
+"""The helpers that gen/c2lean.py translates (stripbrackets, addbrackets, toLowerCase, hashstring, ltrim, rtrim,
+trim, check_delim, replace_str; over the entry array of an econf_file: has_group, first_entry, first_definition, find_key,
+getFromGroupList): the real C function (harness/leaf.c, ASan+UBSan, arguments in tight heap blocks), the
 translated term run by the MiniC interpreter (econf_model --leaf) and an independent specification in Python are
 evaluated on the same inputs.  This validates the trusted part of the translator route (the MiniC semantics and the
 translation itself) and supplies the failing input when a theorem of lean/Econf/Props/Leaf.lean no longer checks."""
@@ -123,6 +124,111 @@ def inputs(fn, tier, rng):
     return [a for a in out if valid(fn, a[0])]
 
 
+# ---------- functions over the entry array / the group list of an econf_file
+KF_FNS = ("has_group", "first_entry", "first_definition", "find_key", "getFromGroupList")
+NONE = b"_none_"
+KF_GROUPS = [b"A", b"B", b"", NONE, b"AB", b"a", b"[A]"]
+KF_KEYS = [b"x", b"y", b"xy", b"", b"X"]
+
+
+def ents_token(ents):
+    return "e" + ",".join(hx(g) + ":" + hx(k) for g, k in ents)
+
+
+def arg_token(a):
+    return "-" if a is None else ("n%d" % a if isinstance(a, int) else hx(a))
+
+
+def first_entry_spec(ents, g, k):
+    for i, (eg, ek) in enumerate(ents):
+        if eg == g and ek == k:
+            return i
+    return len(ents)
+
+
+def kf_spec(fn, obj, args):
+    if fn == "has_group":
+        return "%d" % any(g == args[0] for g, _ in obj)
+    if fn == "first_entry":
+        return "%d" % first_entry_spec(obj, args[0], args[1])
+    if fn == "first_definition":
+        g, k = obj[args[0]]
+        return "%d" % (first_entry_spec(obj, g, k) == args[0])
+    if fn == "find_key":
+        g, k = args
+        grp = NONE if not g else g
+        if not k:
+            return "E1 -"
+        i = first_entry_spec(obj, grp, k)
+        return "E0 %d" % i if i < len(obj) else "E5 -"
+    if fn == "getFromGroupList":
+        for i, g in enumerate(obj):
+            if g == args[0]:
+                return "%d" % i
+        return "null"
+    raise KeyError(fn)
+
+
+def kf_cases(fn, tier, rng):
+    """-> list of (input line, expected output line)"""
+    out = []
+
+    def add(obj, args):
+        tok = ("g" + ",".join(hx(g) for g in obj)) if fn == "getFromGroupList" else ents_token(obj)
+        out.append(("%s %s %s" % (fn, tok, " ".join(arg_token(a) for a in args)), fn + " " + kf_spec(fn, obj, args)))
+
+    def arg_sets(obj):
+        if fn == "has_group":
+            return [(g,) for g in KF_GROUPS[:4]]
+        if fn == "first_entry":
+            return [(g, k) for g in KF_GROUPS[:3] for k in KF_KEYS[:3]]
+        if fn == "first_definition":
+            return [(i,) for i in range(len(obj))]
+        if fn == "find_key":
+            return [(g, k) for g in (None, b"", b"A", NONE) for k in (None, b"", b"x", b"y")]
+        return [(g,) for g in KF_GROUPS[:4]]
+
+    # every object of up to 2 (thorough: 3) entries over a tiny universe, with every argument
+    small = [(g, k) for g in KF_GROUPS[:3] for k in KF_KEYS[:2]] if fn != "getFromGroupList" else KF_GROUPS[:4]
+    for n in range(0, (3 if tier == "quick" else 4)):
+        for obj in itertools.product(small, repeat=n):
+            for a in arg_sets(list(obj)):
+                add(list(obj), a)
+    # longer random objects (repeated definitions, look-alike names)
+    for _ in range(400 if tier == "quick" else 20000):
+        n = rng.choice([1, 2, 3, 5, 8, 13, 40])
+        if fn == "getFromGroupList":
+            obj = [rng.choice(KF_GROUPS) for _ in range(n)]
+            add(obj, (rng.choice(KF_GROUPS),))
+            continue
+        obj = [(rng.choice(KF_GROUPS), rng.choice(KF_KEYS)) for _ in range(n)]
+        if fn == "has_group":
+            add(obj, (rng.choice(KF_GROUPS),))
+        elif fn == "first_entry":
+            add(obj, (rng.choice(KF_GROUPS), rng.choice(KF_KEYS)))
+        elif fn == "first_definition":
+            add(obj, (rng.randrange(n),))
+        else:
+            add(obj, (rng.choice(KF_GROUPS + [None]), rng.choice(KF_KEYS + [None])))
+    return out
+
+
+def expected(ln):
+    """expected output of an input line (replay)"""
+    t = ln.split()
+    fn = t[0]
+    if fn in KF_FNS:
+        items = [x for x in t[1][1:].split(",") if x] if len(t[1]) > 1 else []
+        if fn == "getFromGroupList":
+            obj = [bytes.fromhex(x[1:]) for x in items]
+        else:
+            obj = [tuple(bytes.fromhex(y[1:]) for y in x.split(":")) for x in items]
+        args = [None if a == "-" else (int(a[1:]) if a.startswith("n") else bytes.fromhex(a[1:])) for a in t[2:]]
+        return fn + " " + kf_spec(fn, obj, args)
+    a = [bytes.fromhex(x[1:]) for x in t[1:]]
+    return fn + " " + (spec_replace(*a) if fn == "replace_str" else SPECS[fn](*a))
+
+
 def run_lines(harness, lines):
     """-> (impl lines or None on crash, model lines, impl stderr)"""
     text = ("\n".join(lines) + "\n").encode()
@@ -136,8 +242,12 @@ def run_lines(harness, lines):
 
 def run(res, harness, tier, rng, fns):
     for fn in fns:
-        args = inputs(fn, tier, rng)
-        lines = ["%s %s" % (fn, " ".join(hx(a) for a in t)) for t in args]
+        if fn in KF_FNS:
+            cases = kf_cases(fn, tier, rng)
+        else:
+            cases = [("%s %s" % (fn, " ".join(hx(a) for a in t)), None) for t in inputs(fn, tier, rng)]
+            cases = [(ln, expected(ln)) for ln, _ in cases]
+        lines = [c[0] for c in cases]
         impl, model, err, rc = run_lines(harness, lines)
         res.evaluations += len(lines)
         res.direct_distinct += len(set(lines))
@@ -150,8 +260,7 @@ def run(res, harness, tier, rng, fns):
                 if rc1 != 0 or len(i1) != 1:
                     bad.append((ln, "the C function: sanitizer report or crash\n" + e1[-1500:], None, None))
                     break
-        for k, (ln, t) in enumerate(zip(lines, args)):
-            want = fn + " " + (spec_replace(*t) if fn == "replace_str" else SPECS[fn](*t))
+        for k, (ln, want) in enumerate(cases):
             il = impl[k] if k < len(impl) else None
             ml = model[k] if k < len(model) else None
             if il is not None and il != want:
@@ -176,8 +285,7 @@ def replay(res, harness, path):
     impl, model, err, rc = run_lines(harness, lines)
     for ln, il, ml in zip(lines, impl + [None] * len(lines), model + [None] * len(lines)):
         fn = ln.split()[0]
-        t = [bytes.fromhex(x[1:]) for x in ln.split()[1:]]
-        want = fn + " " + (spec_replace(*t) if fn == "replace_str" else SPECS[fn](*t))
+        want = expected(ln)
         print("LEAF %s\n  C function : %s\n  MiniC      : %s\n  expected   : %s" % (ln, il, ml, want))
         res.evaluations += 1
         if il != want or ml != want or rc != 0:
